@@ -5,10 +5,12 @@ import (
 	"bytes"
 	"context"
 	"fmt"
+	"io"
 	"os"
 	"path/filepath"
 	"strconv"
 	"strings"
+	"syscall"
 	"time"
 
 	"github.com/go-spring/log"
@@ -57,6 +59,8 @@ func runC05Kinds(cases []string, out *bufio.Writer, _ []string) {
 		dir := filepath.Join(base, strconv.Itoa(n))
 		os.Mkdir(dir, 0755)
 		cfg := map[string]string{"logger.lg.tags": "_c05_*", "appender.unused.type": "Rec"}
+		var fifoData *syncBuffer
+		var fifoEOF chan struct{}
 		switch kind {
 		case "syncfile", "asyncfile":
 			cfg["appender.fa.type"] = "File"
@@ -69,6 +73,25 @@ func runC05Kinds(cases []string, out *bufio.Writer, _ []string) {
 				cfg["logger.lg.type"] = "AsyncLogger"
 				cfg["logger.lg.bufferFullPolicy"] = pol
 			}
+		case "fifofile": // a File appender whose target is a FIFO with a reader on the other end (fsync fails on it; Close must still happen)
+			fifo := filepath.Join(dir, "a.log")
+			syscall.Mkfifo(fifo, 0644)
+			fifoData = &syncBuffer{}
+			fifoEOF = make(chan struct{})
+			go func(buf *syncBuffer, eof chan struct{}) {
+				defer close(eof)
+				r, err := os.OpenFile(fifo, os.O_RDONLY, 0)
+				if err != nil {
+					return
+				}
+				defer r.Close()
+				io.Copy(buf, r)
+			}(fifoData, fifoEOF)
+			cfg["appender.fa.type"] = "File"
+			cfg["appender.fa.fileDir"] = dir
+			cfg["appender.fa.fileName"] = "a.log"
+			cfg["logger.lg.appenderRef.ref"] = "fa"
+			cfg["logger.lg.type"] = "Logger"
 		case "syncrollingapp":
 			cfg["appender.fa.type"] = "RollingFile"
 			cfg["appender.fa.fileDir"] = dir
@@ -146,6 +169,11 @@ func runC05Kinds(cases []string, out *bufio.Writer, _ []string) {
 		var data []byte
 		if kind == "console" {
 			data = stdout.Bytes()
+		} else if kind == "fifofile" {
+			if !waitSignal(fifoEOF, 2*time.Second) { // the writer's descriptor is still open somewhere
+				ret += "-reader-sees-no-EOF"
+			}
+			data = fifoData.Bytes()
 		} else {
 			ents, _ := os.ReadDir(dir)
 			for _, e := range ents {
